@@ -183,4 +183,80 @@ theorem pyIndex_neg {α} (l : List α) (k : Nat) (h1 : 1 ≤ k) (h2 : k ≤ l.le
   rw [this]
   exact List.getElem?_eq_getElem hlt
 
+/-! ### strict typing as a decidable fact about the regenerated operator table -/
+
+def instTy : Ty → PyTy → Bool
+  | _, .object => true
+  | t, .int => t == .int || t == .bool
+  | t, .bool => t == .bool
+  | t, .str => t == .str
+  | t, .list => t == .arr
+  | t, .dict => t == .dict
+
+theorem isInstance_eq (v : Val) (t : PyTy) : isInstance v t = instTy v.ty t := by
+  cases t <;> rfl
+
+/-- by the table alone, `lt <op> rt` is rejected with a type error -/
+def rejects (lt : Ty) (op : Op) (rt : Ty) : Bool :=
+  match opEntry lt op with
+  | none => true
+  | some (.ty t) => !instTy rt t
+  | some .unary => false
+  | some .untyped => lt == .range && (op == .equals || op == .notEquals) && rt != .range
+
+theorem rejects_sound (l r : Val) (op : Op) (h : rejects l.ty op r.ty = true) :
+    ∃ e, operatorCall l op (some r) = .error e ∧ e ≠ .unsupported := by
+  unfold rejects at h
+  unfold operatorCall
+  split at h
+  · rename_i he; rw [he]; exact ⟨.invalidCode, rfl, by decide⟩
+  · rename_i t he
+    rw [he]
+    have : isInstance r t = false := by rw [isInstance_eq]; simpa using h
+    simp only [this]
+    exact ⟨.invalidArguments, rfl, by decide⟩
+  · cases h
+  · rename_i he
+    rw [he]
+    simp only [Bool.and_eq_true, beq_iff_eq, Bool.or_eq_true, bne_iff_ne, ne_eq] at h
+    obtain ⟨⟨hl, hop⟩, hr⟩ := h
+    cases l <;> simp [Val.ty] at hl
+    cases r <;> simp [Val.ty] at hr <;>
+      rcases hop with rfl | rfl <;> exact ⟨.invalidArguments, rfl, by decide⟩
+
+def allTy (p : Ty → Bool) : Bool := p .int && p .bool && p .str && p .arr && p .dict && p .range
+
+def allOp (p : Op → Bool) : Bool :=
+  p .plus && p .minus && p .times && p .div && p .mod && p .uminus && p .not_ && p .bool && p .equals &&
+  p .notEquals && p .greater && p .less && p .greaterEquals && p .lessEquals && p .in_ && p .notIn && p .index
+
+theorem allTy_spec {p : Ty → Bool} (h : allTy p = true) (t : Ty) : p t = true := by
+  simp only [allTy, Bool.and_eq_true] at h
+  cases t <;> simp [h]
+
+theorem allOp_spec {p : Op → Bool} (h : allOp p = true) (o : Op) : p o = true := by
+  simp only [allOp, Bool.and_eq_true] at h
+  cases o <;> simp [h]
+
+/-- arithmetic and ordering/equality operators (the ones the reference types strictly) -/
+def strictOp : Op → Bool
+  | .plus | .minus | .times | .div | .mod | .equals | .notEquals | .greater | .less | .greaterEquals
+  | .lessEquals => true
+  | _ => false
+
+/-- one cell of the strict-typing table: different operand types are rejected, except `array + x`
+(documented append) and `int <op> bool` (the quirk) -/
+def strictCase (lt : Ty) (op : Op) (rt : Ty) : Bool :=
+  !(strictOp op && decide (lt ≠ rt) && !decide (lt = .arr ∧ op = .plus) && !decide (lt = .int ∧ rt = .bool)) ||
+    rejects lt op rt
+
+def strictTableOk : Bool := allTy fun lt => allOp fun op => allTy fun rt => strictCase lt op rt
+
+theorem strictTable_spec (h : strictTableOk = true) (lt : Ty) (op : Op) (rt : Ty) :
+    strictCase lt op rt = true :=
+  allTy_spec (allOp_spec (allTy_spec h lt) op) rt
+
+/-- the per-run obligation on the regenerated table -/
+theorem strictTableOk_holds : strictTableOk = true := by decide
+
 end MesonModel.Eval
